@@ -31,11 +31,15 @@ type Gen struct {
 	// distinct keys (sizes around powers of two and round numbers up to BulkMax) instead of
 	// 1-4: a real hand-over moves a whole key range at once, and batching/chunking code only
 	// shows its seams at such sizes.
-	BulkMax  int
-	BulkOps  int // number of bulk operations generated so far
-	bulkPool [][]byte
-	total    int
-	kinds    []OpKind
+	// EmptyBatches: about one in fifteen Import / Export / RemoveKeys operations carries no keys at all
+	// (a legal no-op for the store; the chord layer never sends one, direct users of the KV interface can)
+	EmptyBatches bool
+	BulkMax      int
+	BulkOps      int // number of bulk operations generated so far
+	EmptyOps     int // number of zero-key batches generated so far
+	bulkPool     [][]byte
+	total        int
+	kinds        []OpKind
 }
 
 var bulkSizes = []int{15, 16, 17, 31, 32, 33, 63, 64, 65, 99, 100, 101, 127, 128, 129, 199, 200, 201, 255, 256, 257, 400, 511, 512, 513, 1000, 1023, 1024, 1025}
@@ -216,6 +220,10 @@ func (g *Gen) Next() Op {
 		if bk := g.bulkKeys(); bk != nil {
 			op.Keys = bk
 		}
+		if g.EmptyBatches && g.Rng.Intn(15) == 0 {
+			op.Keys = [][]byte{}
+			g.EmptyOps++
+		}
 		op.Vals = make([]Transfer, len(op.Keys))
 		for i := range op.Vals {
 			var t Transfer
@@ -241,6 +249,13 @@ func (g *Gen) Next() Op {
 		op.Keys = g.keySubset(4)
 		if bk := g.bulkKeys(); bk != nil {
 			op.Keys = bk
+		}
+		if g.EmptyBatches && g.Rng.Intn(15) == 0 {
+			op.Keys = nil
+			if g.Rng.Intn(2) == 0 {
+				op.Keys = [][]byte{}
+			}
+			g.EmptyOps++
 		}
 	case OpAcquire:
 		op.Key, op.TTL = g.key(), g.ttl()
